@@ -199,6 +199,7 @@ func (v *IRView) fieldTarget(r *Rand) string {
 type TypeSpec struct {
 	K        string      `json:"k"` // string int64 bool any array map ref struct enum
 	Elem     *TypeSpec   `json:"elem,omitempty"`
+	Index    *TypeSpec   `json:"index,omitempty"` // maps: index type when it is not a plain string
 	RefPkg   string      `json:"ref_pkg,omitempty"`
 	RefName  string      `json:"ref_name,omitempty"`
 	Fields   []FieldSpec `json:"fields,omitempty"`
@@ -229,6 +230,10 @@ func genTypeSpec(r *Rand, v *IRView, depth int) *TypeSpec {
 	case k == 4:
 		t.K = "map"
 		t.Elem = genTypeSpec(r, v, depth+1)
+		if sr := r.Side("map-index"); sr.Chance(1, 3) {
+			// `{[severity]: T}`: no parser produces it, a hand-written type can
+			t.Index = &TypeSpec{K: "enum", Values: []string{"low", "high"}}
+		}
 	case k == 5 || k == 6:
 		t.K = "ref"
 		_, t.RefPkg, t.RefName, _ = v.objTarget(r, nil)
@@ -259,8 +264,12 @@ func (t *TypeSpec) yaml(ind string) string {
 		p("kind: map")
 		p("map:")
 		p("  indextype:")
-		p("    kind: scalar")
-		p("    scalar: {scalar_kind: string}")
+		if t.Index != nil {
+			b.WriteString(t.Index.yaml(ind + "    "))
+		} else {
+			p("    kind: scalar")
+			p("    scalar: {scalar_kind: string}")
+		}
 		p("  valuetype:")
 		b.WriteString(t.Elem.yaml(ind + "    "))
 	case "ref":
@@ -633,7 +642,13 @@ func typeSpecToAST(t *TypeSpec) (ast.Type, error) {
 		if err != nil {
 			return out, err
 		}
-		out.Kind, out.Map = ast.KindMap, &ast.MapType{IndexType: strScalar, ValueType: e}
+		idx := strScalar
+		if t.Index != nil {
+			if idx, err = typeSpecToAST(t.Index); err != nil {
+				return out, err
+			}
+		}
+		out.Kind, out.Map = ast.KindMap, &ast.MapType{IndexType: idx, ValueType: e}
 	case "ref":
 		out.Kind, out.Ref = ast.KindRef, &ast.RefType{ReferredPkg: t.RefPkg, ReferredType: t.RefName}
 	case "struct":
